@@ -74,7 +74,10 @@ void _dbus_timeout_disable (DBusTimeout *t) { t->enabled = 0; }
 int bus_context_get_max_replies_per_connection (BusContext *c) { return cfg_max_replies; }
 void bus_context_log (BusContext *c, DBusSystemLogSeverity s, const char *m, ...) { }
 BusConnections *bus_context_get_connections (BusContext *c) { return &conns; }
-void _dbus_get_monotonic_time (long *s, long *us) { *s = vf_long (); *us = vf_long (); }
+static int vf_now_set; static long vf_now_s, vf_now_us; static int vf_auth_timeout = 30000;
+void _dbus_get_monotonic_time (long *s, long *us) { if (vf_now_set) { *s = vf_now_s; *us = vf_now_us; return; } *s = vf_long (); *us = vf_long (); }
+int bus_context_get_auth_timeout (BusContext *c) { return vf_auth_timeout; }
+dbus_bool_t dbus_connection_get_is_authenticated (DBusConnection *c) { return vf_bool (); }
 const char bus_no_memory_message[] = "oom";
 static const char *vf_err_name;
 void dbus_set_error (DBusError *e, const char *name, const char *fmt, ...) { vf_err_name = name; if (e) { e->name = name; e->message = "m"; } }
@@ -132,7 +135,8 @@ dbus_uint32_t _dbus_connection_get_next_client_serial (DBusConnection *c) { retu
 static int vf_pending_fds_now, n_closed;
 int _dbus_connection_get_pending_fds_count (DBusConnection *c) { return vf_pending_fds_now; }
 int bus_context_get_pending_fd_timeout (BusContext *c) { return 4242; }
-void dbus_connection_close (DBusConnection *c) { n_closed++; }
+static int closed_mask;
+void dbus_connection_close (DBusConnection *c) { int i; n_closed++; for (i = 0; i < NC; i++) if (c == cnp[i]) closed_mask |= 1 << i; }
 dbus_bool_t bus_containers_connection_is_contained (DBusConnection *c, const char **path, const char **type, const char **name) { return FALSE; }
 
 /* ---- reference: set of (caller, callee, serial) triples ---- */
@@ -325,6 +329,32 @@ void harness (void)
     n_closed = 0;
     pending_unix_fds_timeout_cb (cnp[0]);
     VF_ASSERT (n_closed == 1, "when the timer fires the connection is closed");
+  }
+#elif OP == 8
+  {
+    /* C10: a peer that has not completed Hello within auth_timeout is dropped, whatever else is true of it (authenticated or not);
+     * younger ones are left alone and the expiry timer is re-armed for the oldest survivor.  One call of the real
+     * bus_connections_expire_incomplete on a two-entry incomplete list (oldest first, as bus_connections_setup_connection appends). */
+    static struct DBusTimeout et; static DBusList l0, l1; long s0, u0, s1, u1, e0, e1; int at;
+    vf_now_set = 1; vf_now_s = vf_range (0, 200000); vf_now_us = vf_range (0, 999999); vf_auth_timeout = at = vf_range (1, 600000);
+    s0 = vf_range (0, 200000); u0 = vf_range (0, 999999); s1 = vf_range (0, 200000); u1 = vf_range (0, 999999);
+    VF_ASSUME ((s0 < s1 || (s0 == s1 && u0 <= u1)) && (s1 < vf_now_s || (s1 == vf_now_s && u1 <= vf_now_us)));      /* oldest first, none from the future */
+    cdp[0]->connection_tv_sec = s0; cdp[0]->connection_tv_usec = u0; cdp[1]->connection_tv_sec = s1; cdp[1]->connection_tv_usec = u1;
+    l0.data = cnp[0]; l1.data = cnp[1]; l0.next = &l1; l0.prev = &l1; l1.next = &l0; l1.prev = &l0; conns.incomplete = &l0; conns.n_incomplete = 2;
+    conns.expire_timeout = &et; et.enabled = vf_bool (); closed_mask = 0;
+    /* elapsed milliseconds as microsecond-exact integers, compared with a 1 ms guard band (the code computes in double) */
+    e0 = ((vf_now_s - s0) * 1000000 + (vf_now_us - u0)); e1 = ((vf_now_s - s1) * 1000000 + (vf_now_us - u1));
+    bus_connections_expire_incomplete (&conns);
+    if (e0 >= ((long) at + 1) * 1000) VF_ASSERT (closed_mask & 1, "the oldest incomplete connection is closed once auth_timeout has elapsed");
+    if (e1 >= ((long) at + 1) * 1000) VF_ASSERT ((closed_mask & 3) == 3, "every incomplete connection older than auth_timeout is closed, authenticated or not");
+    if (e0 <= ((long) at - 1) * 1000) VF_ASSERT (closed_mask == 0, "connections younger than auth_timeout are left alone");
+    if (e1 <= ((long) at - 1) * 1000) VF_ASSERT (!(closed_mask & 2), "a younger connection is not closed with an older one");
+    VF_ASSERT (!(closed_mask & 4), "complete connections are never expired");
+    if ((closed_mask & 3) == 3) VF_ASSERT (!et.enabled, "nothing left: the expiry timer is disabled");
+    else if (e0 <= ((long) at - 1) * 1000) VF_ASSERT (et.enabled && et.interval >= at - e0 / 1000 - 2 && et.interval <= at - e0 / 1000 + 1, "timer re-armed for the oldest survivor");
+    else if ((closed_mask & 3) == 1 && e1 <= ((long) at - 1) * 1000) VF_ASSERT (et.enabled && et.interval >= at - e1 / 1000 - 2 && et.interval <= at - e1 / 1000 + 1, "timer re-armed for the oldest survivor");
+    if ((closed_mask & 3) == 1) VF_WITNESS_OPT ("one of two incomplete connections expired");
+    if ((closed_mask & 3) == 3) VF_WITNESS_OPT ("both expired");
   }
 #elif OP == 4
   {
